@@ -85,8 +85,51 @@ Theorem C03_changes : forall V isnan eqb prev rest,
 Proof. exact RangeFnsProofs.changes_spec. Qed.
 Print Assumptions C03_changes.
 
-(* PARTIAL. The arithmetic kernels (Kahan sums, mean, variance, regression,
-   extrapolated rate) are transcribed in RangeFns.v and compared bit for bit
-   with the real ones; that they compute "the reference value" is the statement
-   that the reference uses the same operations in the same order, which is
-   decided by the reference oracle, not proved. *)
+(* The arithmetic kernels are generic in the number type (RangeArith.v); the float
+   instance is what is compared with the real kernels bit for bit. On the
+   rationals, where nothing is rounded, the compensated loops compute the sum,
+   the mean, the population variance and the least-squares slope of the window. *)
+From Coq Require QArith.
+From Verif Require RangeArith RangeArithProofs.
+
+Theorem C03_sum_over_time_exact : forall vs,
+  QArith_base.Qeq (RangeArith.gsum_over QArith_base.Q RangeArithProofs.qops vs) (RangeArithProofs.qsum vs).
+Proof. exact RangeArithProofs.gsum_over_exact. Qed.
+Print Assumptions C03_sum_over_time_exact.
+
+Theorem C03_avg_over_time_exact : forall vs, vs <> [] ->
+  QArith_base.Qeq (RangeArith.gavg_over QArith_base.Q RangeArithProofs.qops vs) (RangeArithProofs.qmean vs).
+Proof. exact RangeArithProofs.gavg_over_exact. Qed.
+Print Assumptions C03_avg_over_time_exact.
+
+(* stdvar_over_time; stddev_over_time is its square root *)
+Theorem C03_stdvar_over_time_exact : forall vs, vs <> [] ->
+  QArith_base.Qeq (RangeArith.gvariance_over QArith_base.Q RangeArithProofs.qops vs) (RangeArithProofs.qvar vs).
+Proof. exact RangeArithProofs.gvariance_over_exact. Qed.
+Print Assumptions C03_stdvar_over_time_exact.
+
+(* deriv: 0 on a constant window, else covariance over variance of (seconds since the first point, value) *)
+Theorem C03_deriv_exact : forall p0 rest,
+  let ps := p0 :: rest in
+  let xs := RangeArithProofs.xs_of (fst p0) ps in let ys := RangeArithProofs.ys_of ps in
+  QArith_base.Qeq (RangeArith.gderiv QArith_base.Q RangeArithProofs.qops ps)
+    (if forallb (fun p => QArith_base.Qeq_bool (snd p) (snd p0)) rest then QArith_base.Qmake 0 1
+     else QArith_base.Qdiv
+            (QArith_base.Qminus (RangeArithProofs.qdot xs ys)
+               (QArith_base.Qdiv (QArith_base.Qmult (RangeArithProofs.qsum xs) (RangeArithProofs.qsum ys)) (RangeArithProofs.qlen xs)))
+            (QArith_base.Qminus (RangeArithProofs.qdot xs xs)
+               (QArith_base.Qdiv (QArith_base.Qmult (RangeArithProofs.qsum xs) (RangeArithProofs.qsum xs)) (RangeArithProofs.qlen xs)))).
+Proof. exact RangeArithProofs.gderiv_exact. Qed.
+Print Assumptions C03_deriv_exact.
+
+(* non-vacuity: 1, 2, 4, 9 has mean 4 and variance 19/2 *)
+Example C03_exact_example :
+  let vs := [QArith_base.Qmake 1 1; QArith_base.Qmake 2 1; QArith_base.Qmake 4 1; QArith_base.Qmake 9 1] in
+  QArith_base.Qeq (RangeArith.gavg_over QArith_base.Q RangeArithProofs.qops vs) (QArith_base.Qmake 4 1) /\
+  QArith_base.Qeq (RangeArith.gvariance_over QArith_base.Q RangeArithProofs.qops vs) (QArith_base.Qmake 19 2).
+Proof. split; vm_compute; reflexivity. Qed.
+
+(* PARTIAL. With rounding, that the float kernels compute "the reference value"
+   is the statement that the reference uses the same operations in the same
+   order (bitwise correspondence with the real kernels, reference oracle on the
+   real engine); extrapolatedRate and instantValue are their own definition. *)
